@@ -174,13 +174,7 @@ func checkC11(c *Ctx) {
 	charsetTableRule(c, p, "C11-R8")
 	for _, pi := range inputParsers(p) {
 		if pi.fn.Name() == "parseFunctionKey" {
-			n0 := len(c.Obls)
-			c02PartialAccumulates(c, p, pi)
-			for i := n0; i < len(c.Obls); i++ {
-				c.Obls[i].Rule = "C11-R9"
-				c.ruleCounts["C02-R11"]--
-				c.ruleCounts["C11-R9"]++
-			}
+			c02PartialAccumulates(c, p, pi, "C11-R9")
 		}
 	}
 	checkSubstitutedPrefix(c, p, pr, "C11-R7")
